@@ -45,6 +45,18 @@ def build(par, n, oport, rnd):
         cl_body = B
     elif k == 'cl_list_diff':
         hl += ['Content-Length: %d, %d' % (L, L + 1)]
+    elif k == 'cl_list_dup_diff':
+        hl += ['Content-Length: %d, %d, %d' % (L, L, L + max(len(S), 3))]
+        if not S:
+            R = B + b'xyz'
+    elif k == 'cl_two_dup_diff':
+        hl += ['Content-Length: %d' % L, 'Content-Length: %d, %d' % (L, L + max(len(S), 3))]
+        if not S:
+            R = B + b'xyz'
+    elif k == 'cl_listdup_then_field':
+        hl += ['Content-Length: %d,%d' % (L, L), 'Content-Length: %d' % (L + max(len(S), 3))]
+        if not S:
+            R = B + b'xyz'
     elif k in ('cl_plus', 'cl_minus', 'cl_trailing', 'cl_hex', 'cl_inner_space', 'cl_empty', 'cl_exp', 'cl_huge'):
         v = {'cl_plus': '+%d' % L, 'cl_minus': '-%d' % L, 'cl_trailing': '%dx' % L, 'cl_hex': '0x%x' % L, 'cl_inner_space': '1 2', 'cl_empty': '',
              'cl_exp': '1e1', 'cl_huge': '99999999999999999999'}[k]
